@@ -114,6 +114,16 @@ func propC06(rt *rapid.T, t *testing.T, c *ev.Collector) {
 			lo := new(big.Int).Sub(b[0], big.NewInt(slack[d]))
 			hi := new(big.Int).Add(b[1], big.NewInt(slack[d]))
 			if sum.Cmp(lo) < 0 || sum.Cmp(hi) > 0 {
+				// observation-time part of the known finding c06-slash-vault-rebalance-error-dropped: the
+				// delegator is a provider vault and a validator slash has been processed in this history
+				// (the dropped BalanceDelegator error leaves exactly such accounts unbalanced; the
+				// predictive exclusion in slashFindingClass does not recognise every variant)
+				if ev.Excluded(findingSlashVault) && slashProcessed(w) {
+					if _, isVault := w.C.TS.Keepers.Epochstorage.GetProviderMetadataByVault(w.C.TS.Ctx, d); isVault {
+						c.Exclude(findingSlashVault)
+						continue
+					}
+				}
 				var parts []string
 				for _, p := range sortedKeys(snap[d]) {
 					parts = append(parts, fmt.Sprintf("%s=%s", short(p), snap[d][p]))
@@ -365,4 +375,14 @@ func TestC06Known_staleRedelegationFlagAtBeginBlock(t *testing.T) {
 	if ok, msg := balanceReport(w, d.Addr.String()); !ok {
 		t.Fatalf("%s", ev.Violation("C06", "redelegation of 3000 from validator 0 to validator 1 as the last transaction of a block, then validator 0 slashed by 5%% in the next BeginBlock: %s (the redelegation ante flag was still set, so the unbonding done by staking.SlashRedelegation was not mirrored)", msg))
 	}
+}
+
+// slashProcessed reports whether a validator slash was executed in this history.
+func slashProcessed(w *chain.World) bool {
+	for _, h := range w.C.Hist {
+		if strings.Contains(h, "BeginBlock: slash(") && strings.HasSuffix(h, "-> ok") {
+			return true
+		}
+	}
+	return false
 }
